@@ -21,8 +21,8 @@ demo() { # runs the demonstration in $W; returns its exit status
 demo; echo "demo without the change: exit=$? (expect 0)"; tail -3 "$O/demo.log" | cut -c1-200
 git -C "$W" apply "$D/patch.diff" || { echo "patch does not apply"; exit 3; }
 demo; echo "demo with the change:    exit=$? (expect non-zero)"; grep -m3 -i "fail\|panic\|---" "$O/demo.log" | cut -c1-200
-if VERIF_REPO="$W" /verif/baseline.sh >"$O/baseline.log" 2>&1; then echo "repository tests with the change: PASS"; else echo "repository tests with the change: FAIL"; tail -5 "$O/baseline.log"; fi
+if VERIF_REPO="$W" "${VERIF_DIR:-/verif}"/baseline.sh >"$O/baseline.log" 2>&1; then echo "repository tests with the change: PASS"; else echo "repository tests with the change: FAIL"; tail -5 "$O/baseline.log"; fi
 for c in "$@"; do
   echo "== $c"
-  VERIF_REPO="$W" VERIF_OUT="$O" /verif/check.sh "$c" --tier "${TIER:-quick}" 2>&1 | grep -v "^C[0-9]*/" | head -7 | cut -c1-400
+  VERIF_REPO="$W" VERIF_OUT="$O" "${VERIF_DIR:-/verif}"/check.sh "$c" --tier "${TIER:-quick}" 2>&1 | grep -v "^C[0-9]*/" | head -7 | cut -c1-400
 done
